@@ -149,6 +149,42 @@ func suiteC06Render(cfg Config, res *Result) {
 			res.add(Finding{Kind: "oracle", Proj: "render", Sig: "templatetag", Case: hx(src), Impl: r.String(), Model: "ok " + hx(v)})
 		}
 	}
+	// (g) literal text between two trimming delimiters: only the engine's blanks (space, tab, CR, LF)
+	// go, and only at the two ends; every other byte of the text — form feeds, no-break spaces, wide
+	// spaces — is reproduced
+	for i := 0; i < 600; i++ {
+		ws := func() string {
+			var sb strings.Builder
+			for k := rng.Intn(4); k > 0; k-- {
+				sb.WriteString(rng.Pick([]string{" ", "\n", "\t", "\r", "\f", "\v", "\u00a0", "\u2003", "\u0085", "\u3000", "\u200b", "\ufeff"}))
+			}
+			return sb.String()
+		}
+		inner := ws() + rng.Pick([]string{"", "x", "a b", "é", "<p>"}) + ws()
+		ls := [][2]string{{"{{ v -}}", "val"}, {"{% if v -%}", ""}, {"{{ v }}", "val"}}
+		rs := [][2]string{{"{{- v }}", "val"}, {"{%- if v %}{% endif %}", ""}, {"{{ v }}", "val"}}
+		l, r := ls[rng.Intn(len(ls))], rs[rng.Intn(len(rs))]
+		src := l[0] + inner + r[0]
+		if l[0] == "{% if v -%}" {
+			src += "{% endif %}"
+		}
+		if !count(src, true) {
+			continue
+		}
+		res.hist("between-dashes")
+		want := inner
+		if strings.Contains(l[0], "-}}") || strings.Contains(l[0], "-%}") {
+			want = strings.TrimLeft(want, " \t\r\n")
+		}
+		if strings.HasPrefix(r[0], "{{-") || strings.HasPrefix(r[0], "{%-") {
+			want = strings.TrimRight(want, " \t\r\n")
+		}
+		want = l[1] + want + r[1]
+		got := implRender(src, c06ctx)
+		if got.Panicked || got.Err != "" || got.Out != want {
+			res.add(Finding{Kind: "oracle", Proj: "render", Sig: "text-between-trimming-delimiters", Case: hx(src), Impl: got.String(), Model: "ok " + hx(want)})
+		}
+	}
 	// (b)(c)(d) fragments
 	for i := 0; i < nSeq; i++ {
 		n := 1 + rng.Intn(5)
